@@ -305,7 +305,8 @@ static void build_alphabet() {
                       {"1e400", std::numeric_limits<double>::infinity(), "beyond-dbl-max", true}};
   struct SV { const char* env; const char* arg; const char* v; const char* c; };
   const SV svals[] = {{"abc", "abc", "abc", "plain"}, {"'a b'", "a b", "a b", "squoted-blank"},
-                      {"\"q'q\"", "q'q", "q'q", "dquoted-apostrophe"}, {"''", "", "", "empty"}};
+                      {"\"q'q\"", "q'q", "q'q", "dquoted-apostrophe"}, {"''", "", "", "empty"},
+                      {"?x", "?x", "?x", "starts-with-qmark"}};
   auto add = [&](Item it, bool red) { it.reduced = red; ALPHA.push_back(it); };
   auto queries = [&](Opt o, const NF& nf) {
     for (auto& sp : seps) {
@@ -385,7 +386,7 @@ static void build_alphabet() {
   static const char* REDUCED[] = {
     "n=0", "n=-7", "n=42", "n=99999999999", "N=42", "N=0", "n=?", "n 42",
     "d=1.5", "d=-2e3", "d=1e400", "D=1.5", "D=-2e3", "d=?", "d = 1.5",
-    "s=abc", "s='a b'", "s=\"q'q\"", "s=''", "S=abc", "o:s='a b'", "O:S=abc", "ostr=\"q'q\"", "OSTR=''", "OSTR=abc", "s=?", "s 'a b'",
+    "s=abc", "s='a b'", "s=\"q'q\"", "s=''", "s=?x", "S=abc", "o:s='a b'", "O:S=abc", "ostr=\"q'q\"", "OSTR=''", "OSTR=abc", "s=?", "s 'a b'",
     "f", "F", "f=1", "f=?",
     "alg:m=0", "alg:m=-7", "alg:m=42", "alg:m=99999999999", "ALG:M=42", "meth=0", "METH=-7", "METH=42", "method=42", "method=-7",
     "Method=0", "meth=?", "meth 42",
@@ -1028,9 +1029,17 @@ int main(int argc, char** argv) {
 
   // ---- single-case replays (fresh process; sanitizer report goes to stderr)
   for (int a = 1; a < argc; ++a) {
-    if (!std::strcmp(argv[a], "--oneA")) {
+    if (!std::strcmp(argv[a], "--oneA") || !std::strcmp(argv[a], "--oneAtext")) {
+      // --oneA mode (src item-index)...   internal, same binary;   --oneAtext mode (src hex-text)...   replay files
+      bool by_text = argv[a][6] == 't';
       int mode = std::atoi(argv[a + 1]); std::vector<Step> h;
-      for (int k = a + 2; k + 1 < argc; k += 2) h.push_back({std::atoi(argv[k]), std::atoi(argv[k + 1])});
+      for (int k = a + 2; k + 1 < argc; k += 2) {
+        int src = std::atoi(argv[k]), item = -1;
+        if (!by_text) item = std::atoi(argv[k + 1]);
+        else { std::string t = unhex(argv[k + 1]); for (int i = 0; i < (int)ALPHA.size(); ++i) if ((src < 2 ? ALPHA[i].env : ALPHA[i].arg) == t) { item = i; break; } }
+        if (item < 0 || item >= (int)ALPHA.size() || src < 0 || src > 2) { std::printf("{\"type\":\"broken\",\"why\":\"replay item not in the alphabet\"}\n"); return 2; }
+        h.push_back({src, item});
+      }
       ACtx cx; State exp; bool ee;
       VSolver sv(mode == 0); Sources so = render(h); Observed ob = execute(sv, so, mode == 0);
       std::string bad = judge(h, ob, mode == 0, exp, ee);
